@@ -377,6 +377,11 @@ func scenarios(r *evid.Run) []scenario {
 		s = append(s, "can:0")
 		all = append(all, scenario{Name: fmt.Sprintf("activating-timing%+d", k-2), Kind: "dpos", Regime: "activating", NStake: 1, Seed: s, Depth: dt})
 	}
+	// A DPoS v1 producer that is still registered when DPoSV2ActiveHeight (base+12) is processed:
+	// the seed stops at base+13, ticks and waits then cross base+12+DepositLockupBlocks-1..+2 and
+	// beyond (a lock released at retirement must not be released again by a lock-up expiry).
+	all = append(all, scenario{Name: "activating-survivor", Kind: "dpos", Regime: "activating", NStake: 1,
+		Seed: []string{"reg:0", "top:0", "tick", "tick", "tick", "tick", "wait", "tick"}, Depth: dt})
 	// Vote expiry: a vote of half the rights cast at base+9 is locked until base+12 (lock time =
 	// block height + 3, DPoSV2MinVotesLockTime shrunk to 2); the seeds stop at base+10..base+13,
 	// so the first explored operation (renew among them) lands at every height in
